@@ -27,6 +27,8 @@ class SubFamily:
             on = rng.choice(['e7', None, 'e9'])
             if on:
                 catch0['on'] = on
+            elif rng.random() < 0.6:
+                missing = True          # a child that fails at once, taken by the calling act's own catch-all
         for lvl in range(depth + 1):
             mid = f'm{lvl}'
             if lvl < depth:
